@@ -249,8 +249,15 @@ func trimScanResponse(meta manifest.RegionMeta, req *pb.RaftCmdRequest, resp *pb
 		return
 	}
 	requests := req.GetRequests()
-	for i, r := range requests {
-		if r == nil || r.GetCmdType() != pb.CmdType_CMD_SCAN {
+	// The applier emits no response for a nil request, so responses are
+	// indexed by the position among the non-nil requests.
+	i := -1
+	for _, r := range requests {
+		if r == nil {
+			continue
+		}
+		i++
+		if r.GetCmdType() != pb.CmdType_CMD_SCAN {
 			continue
 		}
 		if i >= len(resp.Responses) {
